@@ -64,6 +64,7 @@ type Scenario struct {
 	MaxDecideView   int           `json:"max_decide_view,omitempty"` // C09: with S silent from the start every height is decided in a view <= |S| (-1: not checked)
 	Oracle          string        `json:"oracle,omitempty"`     // extra world-level oracle: C08 | C09 | C16
 	ByzScript       []ByzStep     `json:"byz_script,omitempty"` // sends of the Byzantine member that are part of the base (cost 0)
+	TxLast          bool          `json:"tx_last,omitempty"` // requested transactions are supplied after everything deliverable has been delivered (slow fetch)
 	FairTimers      bool          `json:"fair_timers,omitempty"` // safety mode: the default schedule fires quiescent timers round-robin (instead of shortest duration first)
 	LossyLinks      [][2]int      `json:"lossy_links,omitempty"` // directed links (from, to) that lose every message for the whole run (part of the base)
 
@@ -540,8 +541,9 @@ func (w *World) enabled() []Event {
 		}
 	}
 	resetPending := have
-	// 2. transaction supplies
+	// 2. transaction supplies (TxLast: the application fetches slowly, a supply is the default only when nothing is deliverable)
 	txOffered := false
+	var lateTx []Event
 	for _, n := range w.nodes {
 		if !n.live() || n.d == nil {
 			continue
@@ -556,9 +558,13 @@ func (w *World) enabled() []Event {
 		}
 		slices.Sort(hs)
 		for _, h := range hs {
-			add(Event{K: "tx", N: n.id, P: h}, !have)
-			have = true
 			txOffered = true
+			if sc.TxLast {
+				lateTx = append(lateTx, Event{K: "tx", N: n.id, P: h})
+			} else {
+				add(Event{K: "tx", N: n.id, P: h}, !have)
+				have = true
+			}
 			if !sc.Dev.TxOrder {
 				break
 			}
@@ -599,6 +605,10 @@ func (w *World) enabled() []Event {
 			}
 		}
 	}
+	for _, e := range lateTx {
+		add(e, !have)
+		have = true
+	}
 	quiescent := !have
 	onlyResets := resetPending && len(w.net) == 0 && !txOffered
 	// 4. ledger sync of lagging nodes
@@ -628,6 +638,12 @@ func (w *World) enabled() []Event {
 		}
 		if ok {
 			alt(Event{K: "tick", N: 0})
+		}
+	}
+	if sc.Timed && !quiescent && w.newTxDone < len(sc.NewTxAt) && sc.Dev.Reorder {
+		// a transaction that is due now may enter the pools while the messages of this instant are still in flight
+		if t := w.start.Add(time.Duration(sc.NewTxAt[w.newTxDone]) * time.Millisecond); !t.After(w.now) {
+			alt(Event{K: "newtx", N: 0, P: H(900 + w.newTxDone), A: 1})
 		}
 	}
 	if sc.Timed {
